@@ -1242,8 +1242,17 @@ func (m *c15Machine) subscribeCall(t *rapid.T, s *c15Sub) func() any {
 	n, key, tgt := m.n, m.keyOf(s.key), m.target(t, s.ch)
 	switch s.kind {
 	case "nil":
-		if rapid.Bool().Draw(t, "plainSubscribe") {
+		switch rapid.IntRange(0, 3).Draw(t, "plainSubscribe") {
+		case 0:
 			return func() any { n.Subscribe(key, tgt); return nil }
+		case 1:
+			// a context that is not nil but can never be cancelled (no Done channel) is as good as none
+			return func() any { n.SubscribeContext(context.Background(), key, tgt); return nil }
+		case 2:
+			return func() any {
+				n.SubscribeContext(context.WithValue(context.Background(), c15MyInt(1), 1), key, tgt)
+				return nil
+			}
 		}
 		return func() any { n.SubscribeContext(nil, key, tgt); return nil }
 	case "live":
